@@ -6,12 +6,15 @@ from harness.common import coq_list, coq_bool
 CORPUS = os.path.join(common.VERIF, "corpus", "C04")
 REQ = ["Verif.gen.OrderGen", "Verif.lib.Order"]
 FATES = {0: "FPlain", 1: "FGift %d", 2: "FRejectEarly", 3: "FRejectLate"}
-OK_KINDS = ("plain", "slow", "gift")
+OK_KINDS = ("plain", "slow", "raise", "gift")     # kinds that must be entered, exactly once
+# what the body of an entered method may raise (kind "raise"): the keys of c04_impl.BODY_ERRORS (compared in run())
+BODY_ERROR_NAMES = ("AssertionError", "AttributeError", "IndexError", "KeyError", "NotImplementedError", "RemoteException", "RuntimeError",
+                    "StopIteration", "TypeError", "TypeError-call", "TypeError-kw", "ValueError", "Violation", "ZeroDivisionError")
 
 
 # ------------------------------------------------------------------ scenario generators
 def rand_spec(rng, depth=0, allow_gift=True):
-    kinds = [("plain", 40), ("slow", 8), ("gift", 14 if allow_gift else 0), ("early", 10), ("abort", 7), ("late", 9), ("local", 5)]
+    kinds = [("plain", 40), ("slow", 8), ("raise", 8), ("gift", 14 if allow_gift else 0), ("early", 10), ("abort", 7), ("late", 9), ("local", 5)]
     tot = sum(w for _, w in kinds)
     x = rng.randrange(tot)
     for k, w in kinds:
@@ -20,6 +23,8 @@ def rand_spec(rng, depth=0, allow_gift=True):
             break
         x -= w
     spec = dict(kind=kind)
+    if kind == "raise":
+        spec.update(exc=rng.choice(BODY_ERROR_NAMES), how=rng.choice(("raise", "raise", "fail")))
     r = rng.random()
     if kind != "local" and r < 0.4:
         spec["stalls"] = 1 if r < 0.22 else (2 if r < 0.33 else 3)
@@ -41,8 +46,8 @@ def rand_spec(rng, depth=0, allow_gift=True):
     return spec
 
 
-CALLABLE_KINDS = ("plain", "slow", "gift", "abort")     # kinds that do not depend on the receiver's schema (a callable has none)
-TARGETS = ("meth", "func")
+CALLABLE_KINDS = ("plain", "slow", "raise", "gift", "abort")     # kinds that do not depend on the receiver's schema (a callable has none)
+TARGETS = ("meth", "func", "bare")                      # bound method, function, schema-less second Referenceable
 HOOKS = ("copy", "start", "mid", "resume", "end")       # c04_impl.HOOK_POSITIONS
 
 
@@ -342,6 +347,41 @@ def noisy_batch(rng, k):
     return sc
 
 
+def raising_methods(rng, k, chunks, excs, head):
+    """`each call is entered at most once`, from the receiver's own stack: methods that ARE entered and whose body then goes
+    wrong (raises `exc` -- a real failing operation, see c04_impl.BODY_ERRORS -- or returns an already failed Deferred), on every
+    kind of target (Referenceable with a RemoteInterface, schema-less Referenceable, bound method, function), callRemote and
+    callRemoteOnly, keyword and positional arguments, mixed with ordinary calls; all completely received before the first one
+    runs.  head: None, or 'gift' (the burst is queued behind a call that waits for its third-party reference).  The entered
+    method has failed: nothing may enter it again, and the calls behind it run in order"""
+    def spec(i):
+        if i % 2 == 0 or rng.random() < 0.3:
+            sp = dict(kind="raise", exc=excs[(i // 2) % len(excs)], how="fail" if rng.random() < 0.25 else "raise")
+        else:
+            sp = dict(kind=rng.choice(("plain", "plain", "slow", "late")))
+        t = (None, "bare", None, "meth", "func")[i % 5] if rng.random() < 0.7 else rng.choice((None,) + TARGETS)
+        sp.update(target=t, only=rng.random() < 0.25)
+        if t is None and rng.random() < 0.35:
+            sp["pos"] = rng.choice(("all", "some"))
+        return sp
+    sc = [["issue", 0, dict(kind="plain")]]
+    if head == "gift":
+        sc += [["issue", 0, dict(kind="gift", target=rng.choice((None,) + TARGETS))]]
+    off = rng.randrange(10)
+    sc += [["issue", 0, spec(off + i)] for i in range(k)]
+    if rng.random() < 0.3:
+        sc += [["issue", 1, dict(kind="raise", exc=rng.choice(excs), reenter=[dict(kind="plain")])]]
+    nd = len(sc)
+    body = [["deliver", 0, chunks] for _ in range(nd)]
+    if rng.random() < 0.4:
+        body.insert(rng.randint(1, len(body)), ["turn"])
+    sc += body + [["deliver", 1, chunks], ["turn"], ["turn"]]
+    if head == "gift":
+        sc += [["gift", 0, 0, rng.random() < 0.8], ["turn"], ["turn"]]
+    sc += [["finish", 0, 0, rng.random() < 0.5], ["turn"], ["turn"]]
+    return sc
+
+
 def all_specs(script):
     """every call spec of a script, nested ones (reenter / inner / queued callables) included"""
     todo = [st[2] for st in script if st[0] == "issue"] + [st[1][2] for st in script if st[0] == "noise" and isinstance(st[1], list)]
@@ -419,6 +459,8 @@ def judge(r):
         for (c, k), res in r["results"][d].items():
             if k == "plain" and res != c and c not in excused and not r.get("send_lost", [False, False])[d]:
                 bad.append(("oracle/wrong-answer", "direction %d: call %d answered %r" % (d, c, res)))
+            if k == "raise" and not str(res).startswith("exc:") and c not in excused and not r.get("send_lost", [False, False])[d]:
+                bad.append(("oracle/wrong-answer", "direction %d: call %d, whose method was entered and raised, answered %r" % (d, c, res)))
     return bad
 
 
@@ -829,9 +871,10 @@ Eval vm_compute in map (fun c => and_trace (fst c) (snd c)) %s.
 
 # ------------------------------------------------------------------ entry point
 def run(ctx):
-    ctx.rule = ("a scenario is a script of issue (plain / method returning a Deferred that completes or errbacks later / streaming argument that pauses on 1-3 Deferreds / one or two third-party "
+    ctx.rule = ("a scenario is a script of issue (plain / method returning a Deferred that completes or errbacks later / method whose body "
+                "raises one of 14 exceptions (or returns a failed Deferred) after it was entered / streaming argument that pauses on 1-3 Deferreds / one or two third-party "
                 "references / schema-violating argument / unserializable argument / missing argument / locally refused; "
-                "callRemote or callRemoteOnly; addressed to a Referenceable or to a bare bound method / function of the receiver; optionally issuing further "
+                "callRemote or callRemoteOnly; addressed to a Referenceable with a RemoteInterface, to a schema-less second Referenceable or to a bare bound method / function of the receiver; optionally issuing further "
                 "calls from inside the remote_ method or from inside the send-side serialization of its own argument: getStateToCopy, the body of a "
                 "streaming slicer before / between / after its chunks and pauses), "
                 "release-stall, deliver-up-to-next-call (random chunk sizes), resolve-or-fail-one-gift, receiver-loses-connection and eventual-turn steps "
@@ -860,11 +903,16 @@ def run(ctx):
         "when the hooked call was only queued behind a paused one).  That both readings give the same state, for every table, "
         "history and sender state, is a theorem (C04_reentrant_history_is_flat_history); BOTH are evaluated on the real scenarios "
         "and compared with the real sender after every step (correspondence/state, correspondence/nested-state)",
-        "the kind of target (Referenceable / bound method / function) is not a model notion: Broker._doCall must invoke either kind "
+        "what the body of an entered method does (returns, returns a Deferred, raises) is not a model notion: a call whose method "
+        "raises after entry is an FPlain call of the model (entered once); the scenarios mix such calls, on every kind of target, "
+        "with the others and validate them against the same model",
+        "the kind of target (Referenceable with / without RemoteInterface / bound method / function) is not a model notion: Broker._doCall must invoke either kind "
         "directly (shape fact, fail closed); calls to all three kinds are mixed in the scenarios and validated against the same model",
     ]
     ok, log = ctx.coq_build(["props/C04.vo"])
     from harness import c04_impl as impl
+    if tuple(BODY_ERROR_NAMES) != tuple(impl.BODY_ERROR_NAMES):
+        ctx.fail("harness-inconsistency", "BODY_ERROR_NAMES of c04.py and c04_impl.py differ", has_input=False)
     import gc
     gc.disable()        # finalizers of dead RemoteReferences send messages: only at the quiescent points chosen below
     before = len(ctx.failures)
@@ -894,6 +942,8 @@ def run(ctx):
         ctx.hist("script_len", 10 * (len(script) // 10))
         for sp in all_specs(script):
             ctx.hist("call_target", sp.get("target") or "referenceable")
+            if sp.get("kind") == "raise":
+                ctx.hist("method_body_raises", "%s (%s)" % (sp.get("exc") or "TypeError", sp.get("how") or "raise"))
             if sp.get("inner"):
                 ctx.hist("issued_from_inside_serialization_at", sp["inner"]["at"])
         bad = judge(r)
@@ -979,6 +1029,11 @@ def run(ctx):
         for k in range(2, ctx.n(5, 9)):
             for rep in range(ctx.n(2, 8)):
                 do("callable-targets-%s-%d-%d" % (head, k, rep), callable_targets(rng, k, rand_chunks(rng), head))
+    for head in (None, "gift"):
+        for gi in range(0, len(BODY_ERROR_NAMES), 3):
+            excs = (BODY_ERROR_NAMES + BODY_ERROR_NAMES)[gi:gi + 3]
+            for rep in range(ctx.n(1, 8)):
+                do("raising-methods-%s-%s-%d" % (head, "+".join(excs), rep), raising_methods(rng, rng.randint(3, 8), rand_chunks(rng), excs, head))
     for at in HOOKS:
         for stalls in (0, 1, 2):
             for rep in range(ctx.n(2, 10)):
